@@ -269,23 +269,62 @@ def gen_coqproject():
 
 
 def write_if_changed(path, txt):
-    old = open(path).read() if os.path.exists(path) else None
-    if old != txt:
-        os.makedirs(os.path.dirname(path), exist_ok=True)
-        with open(path + (".tmp%d" % os.getpid()), "w") as f:
-            f.write(txt)
-        os.rename(path + (".tmp%d" % os.getpid()), path)
-        return True
-    return False
+    """Regenerated Coq files (coq/Gen/*.v) are written under the Coq lock and their compiled files are removed with them,
+    so that a .vo can never be taken as up to date for a source it was not compiled from (checks running at the same time
+    against different trees regenerate these files for their own tree)."""
+    gen = os.path.abspath(path).startswith(os.path.join(os.path.abspath(COQ), "Gen") + os.sep)
+    def doit():
+        old = open(path).read() if os.path.exists(path) else None
+        if old != txt:
+            os.makedirs(os.path.dirname(path), exist_ok=True)
+            with open(path + (".tmp%d" % os.getpid()), "w") as f:
+                f.write(txt)
+            os.rename(path + (".tmp%d" % os.getpid()), path)
+            if gen and path.endswith(".v"):
+                b = path[:-2]
+                for ext in (".vo", ".vos", ".vok", ".glob"):
+                    try:
+                        os.remove(b + ext)
+                    except OSError:
+                        pass
+            return True
+        return False
+    if gen and not getattr(_coq_lock_state, "held", False):
+        with Lock("coq"):
+            return doit()
+    return doit()
+
+
+class _CoqLockState:
+    held = False
+
+
+_coq_lock_state = _CoqLockState()
 
 
 def coq_make(targets, timeout=1500):
     """make -k the given .vo targets (paths relative to coq/). Returns (ok, log)."""
     with Lock("coq"):
+        return _coq_make_locked(targets, timeout)
+
+
+def _coq_make_locked(targets, timeout):
+    _coq_lock_state.held = True
+    try:
+        # the regenerated files must be those of THIS process's tree at the moment make runs
+        try:
+            from . import gen as _gen
+            _gen.regenerate_all()
+        except BuildError:
+            raise
+        except Exception:
+            pass
         gen_coqproject()
         cmd = ["timeout", str(timeout), "make", "-f", "Makefile.coq", "-k", "-j%d" % NPROC] + list(targets)
         rc, out, err = sh(cmd, cwd=COQ)
-    return rc == 0, out + err
+        return rc == 0, out + err
+    finally:
+        _coq_lock_state.held = False
 
 
 def coq_property(pid, timeout=1500):
@@ -296,7 +335,16 @@ def coq_property(pid, timeout=1500):
     src = os.path.join(COQ, rel)
     text = open(src).read()
     thms = re.findall(r"^\s*(?:Theorem|Lemma|Corollary)\s+(\w+)", text, re.M)
-    ok, lg = coq_make([rel + "o"], timeout)
+    _lk = Lock("coq")
+    _lk.__enter__()
+    try:
+        ok, lg = _coq_make_locked([rel + "o"], timeout)
+        if ok:
+            os.makedirs(os.path.join(BUILD, "tmp"), exist_ok=True)
+            rc, out, err = sh(["timeout", "600", "coqc", "-Q", ".", "Wbxml", "-w", "-all", rel, "-o",
+                               os.path.join(BUILD, "tmp", "Properties_%s.vo" % pid)], cwd=COQ)
+    finally:
+        _lk.__exit__()
     res = {"ok": ok, "log": lg, "theorems": [], "failed": [], "file": rel}
     if not ok:
         # which theorem (if the failure is in the properties file itself) or which dependency
@@ -319,10 +367,6 @@ def coq_property(pid, timeout=1500):
         for t in thms:
             res["theorems"].append({"name": t, "ok": t not in res["failed"], "assumptions": None})
         return res
-    with Lock("coq"):
-        os.makedirs(os.path.join(BUILD, "tmp"), exist_ok=True)
-        rc, out, err = sh(["timeout", "600", "coqc", "-Q", ".", "Wbxml", "-w", "-all", rel, "-o",
-                           os.path.join(BUILD, "tmp", "Properties_%s.vo" % pid)], cwd=COQ)
     blocks, cur = [], None
     for line in out.split("\n"):
         if line.startswith("Closed under the global context") or line.startswith("Axioms:"):
